@@ -43,6 +43,16 @@ inputs:
           source: xsrc
         percentage: 100
         metricLabel: lx
+      - type: drop
+        match:
+          source: zsrc
+        percentage: 100
+        metricLabel: lz
+      - type: drop
+        match:
+          source: ysrc
+        percentage: 100
+        metricLabel: lx
 orchestration:
   type: byKeySet
   keys: [app]
@@ -135,7 +145,7 @@ outputBufferPairs:
 				chunks := make([][]base.LogChunk, len(p.serializers))
 				nrec := 0
 				for _, host := range []string{"h1", "h2"} {
-					for _, source := range []string{"src", "xsrc"} {
+					for _, source := range []string{"src", "xsrc", "ysrc", "zsrc"} {
 						for _, lv := range []struct {
 							pri  int
 							name string
@@ -155,7 +165,7 @@ outputBufferPairs:
 									line := fmt.Sprintf("<%d>1 %s %s app 1 %s - %s", lv.pri, ts, host, source, msg)
 									res := p.feed([]byte(line), chunks)
 									nrec++
-									o.Emit(map[string]any{"ev": "LRec", "host": host, "level": lv.name, "email": email, "badtime": badtime, "len": len(line), "res": res, "xdrop": source == "xsrc"})
+									o.Emit(map[string]any{"ev": "LRec", "host": host, "level": lv.name, "email": email, "badtime": badtime, "len": len(line), "res": res, "xdrop": source != "src", "xlabel": map[string]string{"src": "", "xsrc": "lx", "ysrc": "lx", "zsrc": "lz"}[source]})
 								}
 							}
 						}
@@ -165,7 +175,7 @@ outputBufferPairs:
 				for _, bad := range []string{"", "<13>1 short", "no syslog header at all, but long enough to be looked at"} {
 					res := p.feed([]byte(bad), chunks)
 					nrec++
-					o.Emit(map[string]any{"ev": "LRec", "host": "", "level": "", "email": false, "badtime": false, "len": len(bad), "res": res, "xdrop": true})
+					o.Emit(map[string]any{"ev": "LRec", "host": "", "level": "", "email": false, "badtime": false, "len": len(bad), "res": res, "xdrop": true, "xlabel": ""})
 				}
 				p.flush(chunks)
 				p.procCounter.UpdateMetrics()
@@ -200,10 +210,37 @@ outputBufferPairs:
 				}
 				o.Emit(map[string]any{"ev": "Balance", "lines": nrec, "inPassed": sum("input_passed_records_total"), "inDropped": sum("input_dropped_records_total"),
 					"inPassedBytes": sum("input_passed_record_bytes_total"), "inDroppedBytes": sum("input_dropped_record_bytes_total"),
+					"inLabelled": inLabelled(m, p.prefix),
 					"procPassed": sum("process_passed_records_total"), "procDropped": sum("process_dropped_records_total")})
 			}
 		})
 	}
 	o.Close()
 	return 0
+}
+
+// inLabelled lists the labelled counters of the input (drops by extraction transforms): [label, count, bytes], sorted
+func inLabelled(m map[string]float64, prefix string) [][]any {
+	cnt, byt := map[string]int{}, map[string]int{}
+	re := regexp.MustCompile(`label=([^,}]*)`)
+	for k, v := range m {
+		if !strings.HasPrefix(k, prefix+"input_labelled_record") || v == 0 {
+			continue
+		}
+		lm := re.FindStringSubmatch(k)
+		if lm == nil {
+			continue
+		}
+		if strings.Contains(k, "labelled_record_bytes_total") {
+			byt[lm[1]] += int(v)
+		} else {
+			cnt[lm[1]] += int(v)
+		}
+	}
+	out := [][]any{}
+	for l := range cnt {
+		out = append(out, []any{l, cnt[l], byt[l]})
+	}
+	sort.Slice(out, func(i, j int) bool { return out[i][0].(string) < out[j][0].(string) })
+	return out
 }
